@@ -45,6 +45,8 @@ OPTS = {
     "positivity": ({}, {"NCPositivityCharge": "up", "interpolation_polynomial_degree": 1}),
     "nosv": ({"RenScaleVar": False, "FactScaleVar": False, "PTO": 1}, {}),
     "npfloat": ({}, {"__npkin__": True}),
+    "posall": ({}, {"NCPositivityCharge": "all"}),
+    "posnone_pol": ({}, {"NCPositivityCharge": None, "PolarizationDIS": 0.3, "PropagatorCorrection": 0.0}),
 }
 
 
@@ -158,8 +160,8 @@ def _states_base(tier, seed):
                     continue
                 out.append({"fns": fns, "nfff": nf, "target": tkey, "flavour": flavour, "projectile": proj, "seq": list(seq)})
     # unusual card values (every option x card flavour x every sequence of length <= 2) on two schemes
-    for opt, (fns, nf), flavour in itertools.product(OPTS, [("ZM-VFNS", 3), ("FONLL-FFNS", 4)], ["legacy", "modern"]):
-        tkey = "dict" if opt in ("ew", "positivity") else "name"
+    # every option is crossed with every target spelling (a combination of two card options can take a path neither takes alone)
+    for opt, (fns, nf), flavour, tkey in itertools.product(OPTS, [("ZM-VFNS", 3), ("FONLL-FFNS", 4)], ["legacy", "modern"], list(TARGETS)):
         proj = {"name": "antineutrino", "dict": "positron", "proton": "electron"}[tkey]
         for n in (1, 2):
             for seq in itertools.product(OPS, repeat=n):
